@@ -80,7 +80,7 @@ def k6(P, cls, obj, wire):
     if f is None:
         return
     try:
-        want = f(obj)
+        want = f(W.lift_deep(obj))
     except W.NoSpec as e:
         P.notes.append(('no-spec', str(e)))
         return
